@@ -24,7 +24,7 @@ ASSUMPTIONS = [
 ]
 GATES = {
     "arm_limited_by_distance": 1, "arm_limited_by_intensity": 1, "arm_limited_by_mask": 1, "arm_limited_by_image_side": 1,
-    "region_touching_nan_cost": 1, "aggregation_object_reused_after_an_in_place_update": 3, "interval_wider_than_the_image": 1, "support_region_of_256_pixels_or_more": 1, "fractional_disparity_with_masked_right_neighbour": 1, "right_volume_checked": 2,
+    "region_touching_nan_cost": 1, "right_image_with_another_mask_convention": 1, "aggregation_object_reused_after_an_in_place_update": 3, "interval_wider_than_the_image": 1, "support_region_of_256_pixels_or_more": 1, "fractional_disparity_with_masked_right_neighbour": 1, "right_volume_checked": 2,
     "plane_independence_checked": 3, "costs_compared": 20000,
 }
 
@@ -80,7 +80,15 @@ def run_case(case, ctx):
     ctx.gate("interval_wider_than_the_image", int(ik == "wide"))
     validation = rng.random() < 0.35
     left = gen.make_dataset(l, (a, b), lm)
-    right = gen.make_dataset(r, None, rm)
+    # each dataset carries its own mask convention (valid_pixels / no_data_mask attributes): every fifth case gives the right image
+    # another one (valid 5, no data 7, anything else invalid)
+    other_convention = case["i"] % 5 == 4 and rm is not None
+    if other_convention:
+        rm_coded = np.where(rm == 0, 5, np.where(rm == 1, 7, rm + 10)).astype(np.int16)
+        right = gen.make_dataset(r, None, rm_coded, extra_attrs={"valid_pixels": 5, "no_data_mask": 7})
+    else:
+        right = gen.make_dataset(r, None, rm)
+    ctx.gate("right_image_with_another_mask_convention", int(other_convention and bool((rm != 0).any())))
     keys = ["matching_cost", "aggregation", "disparity"] + (["validation"] if validation else [])
     params = {"matching_cost": {"matching_cost_method": method, "window_size": w, "subpix": subpix},
               "aggregation": {"aggregation_method": "cbca", "cbca_distance": dist, "cbca_intensity": inten}}
